@@ -1,3 +1,128 @@
-//! Engine B entry points.
-pub fn run(_args: &[String]) -> i32 { eprintln!("hist: not built yet"); 2 }
-pub fn replay(_j: &serde_json::Value) -> i32 { 2 }
+//! Engine B entry points: bounded-exhaustive histories / inputs through the
+//! real sequential components against reference models.
+
+use std::time::Instant;
+
+use serde_json::json;
+
+pub struct ShardArgs {
+    pub prop: String,
+    pub tier: String,
+    pub thorough: bool,
+    pub si: usize,
+    pub sn: usize,
+    pub seed: usize,
+    pub out: String,
+    pub heartbeat: Option<String>,
+    pub budget_s: f64,
+    pub t0: Instant,
+}
+
+impl ShardArgs {
+    pub fn mine(&self, n: usize) -> bool {
+        (n + self.seed) % self.sn == self.si
+    }
+    pub fn out_of_time(&self) -> bool {
+        self.t0.elapsed().as_secs_f64() > self.budget_s
+    }
+    pub fn beat(&self, what: &str) {
+        if let Some(hb) = &self.heartbeat {
+            let _ = std::fs::write(hb, what);
+        }
+    }
+}
+
+fn arg(args: &[String], name: &str) -> Option<String> {
+    args.iter().position(|a| a == name).and_then(|i| args.get(i + 1).cloned())
+}
+
+pub fn parse_args(args: &[String]) -> ShardArgs {
+    let tier = arg(args, "--tier").unwrap_or_else(|| "quick".into());
+    let shard = arg(args, "--shard").unwrap_or_else(|| "0/1".into());
+    let (si, sn) = shard.split_once('/').unwrap();
+    ShardArgs {
+        prop: arg(args, "--prop").expect("--prop"),
+        thorough: tier == "thorough",
+        tier,
+        si: si.parse().unwrap(),
+        sn: sn.parse().unwrap(),
+        seed: arg(args, "--seed").and_then(|s| s.parse().ok()).unwrap_or(0),
+        out: arg(args, "--out").expect("--out"),
+        heartbeat: arg(args, "--heartbeat"),
+        budget_s: arg(args, "--budget").and_then(|s| s.parse().ok()).unwrap_or(1e9),
+        t0: Instant::now(),
+    }
+}
+
+fn c11(a: &ShardArgs) -> serde_json::Value {
+    use crate::h_norm as n;
+    let shapes = n::tier_shapes(a.thorough);
+    let cap = if a.thorough { 20_000_000 } else { 300_000 };
+    let mut st = n::NormStats::default();
+    let mut skipped = 0;
+    for (i, s) in shapes.iter().enumerate() {
+        if !a.mine(i) {
+            continue;
+        }
+        if a.out_of_time() {
+            skipped += 1;
+            continue;
+        }
+        a.beat(&format!("C11 shape {i}: {s:?}"));
+        n::run_shape(s, i, cap, &mut st);
+    }
+    for v in &mut st.violations {
+        v["tier"] = json!(a.tier);
+    }
+    json!({
+        "property": "C11", "tier": a.tier,
+        "total_configs": shapes.len(), "configs_done": st.shapes, "configs_capped": st.capped_shapes,
+        "configs_skipped_budget": skipped,
+        "states": st.nodes, "transitions": st.nodes.saturating_sub(st.shapes), "execs": st.leaves,
+        "distinct_outcomes": st.reordered_leaves,
+        "details": {"complete_linearizations": st.leaves, "linearizations_actually_reordered": st.reordered_leaves},
+        "violations": st.violations, "samples": st.samples,
+        "assumptions": ["entity sets: <=2 features, <=1 rule each, <=2 (quick) / 3 (thorough) scenarios per feature, <=2 attempts, 2-3 events per attempt; total weight bound as in h_norm::tier_shapes"],
+    })
+}
+
+pub fn run(args: &[String]) -> i32 {
+    let a = parse_args(args);
+    let mut res = match a.prop.as_str() {
+        "C11" => c11(&a),
+        "C12" => crate::h_sum::run(&a),
+        "C13" => crate::h_comb::run(&a),
+        "C15" => crate::h_filter::run(&a),
+        "C16" => crate::h_outline::run(&a),
+        "C17" => crate::h_step::run(&a),
+        "C18" => crate::h_retry::run(&a),
+        other => {
+            eprintln!("hist: no engine for {other}");
+            return 2;
+        }
+    };
+    res["wall_s"] = json!(a.t0.elapsed().as_secs_f64());
+    res["shard"] = json!(format!("{}/{}", a.si, a.sn));
+    std::fs::write(&a.out, serde_json::to_string_pretty(&res).unwrap()).unwrap();
+    0
+}
+
+pub fn replay(j: &serde_json::Value) -> i32 {
+    let prop = j["property"].as_str().unwrap_or("");
+    let thorough = j["tier"].as_str() == Some("thorough");
+    println!("replaying {prop}: {}", j["message"].as_str().unwrap_or(""));
+    match prop {
+        "C11" => {
+            let order: Vec<usize> =
+                j["order"].as_array().unwrap().iter().map(|x| x.as_u64().unwrap() as usize).collect();
+            crate::h_norm::replay(thorough, j["shape"].as_u64().unwrap() as usize, &order)
+        }
+        "C12" => crate::h_sum::replay(j),
+        "C13" => crate::h_comb::replay(j),
+        "C15" => crate::h_filter::replay(j),
+        "C16" => crate::h_outline::replay(j),
+        "C17" => crate::h_step::replay(j),
+        "C18" => crate::h_retry::replay(j),
+        _ => 2,
+    }
+}
